@@ -27,6 +27,9 @@ META = dict(
     ),
     not_decided="that the generated grammar admits only valid instances (the semantics of every keyword combination)",
 )
+META["explanation"] += (
+    " Added after the independent seeding rounds 2-3: " "R5 every property name is reserved before additional properties are built. R6 bounded_sequence (always emits one item) is called only under `max != Some(0)` for the very value passed as max. R7 object intersection looks each operand's property keys up in the OTHER operand. R8 memoising functions key their maps by their own arguments (value-preserving conversions only)."
+)
 
 # JSON Schema Draft 2020-12: keywords that assert or apply (must never be treated as annotations)
 DRAFT_VALIDATING = {
